@@ -166,6 +166,35 @@ def build_disjointness(w):
         hints={'var_types': {'mult': 'Seq[MI]', 'cards': 'Seq[Card]'}, 'ext_funcs': {'infer_multiplicity': IH, 'cardinality.infer_cardinality': CARD_EXT}})
     w._kfb = KFB
 
+    # ---- tuple constructor: per-element multiplicities of the projections (a.0, a.1, ...) of the tuple set
+    # The tuple set is the cartesian product of the element sets, so projecting element k repeats each of its values once per combination
+    # of the OTHER elements: the projection is duplicate-free only if element k is and every other element is a singleton.
+    w.refclass('TupleEl', {'val': 'IrSet'})
+    w.refclass('IrTuple', {'elements': 'Seq[TupleEl]'})
+    w.rec('CMI', [('own', 'Mult'), ('disjoint_union', 'bool'), ('fresh_free_object', 'bool'), ('elements', 'Seq[MI]')], MULT, 'ContainerMultiplicityInfo')
+    w.trusted.append('tuple projection: element k of a tuple set occurs once per combination of the other elements, so its worst multiplicity is at most its own when all other elements have size <= 1')
+    TG = {'ncs': 'Seq[int]', 'mus': 'Seq[int]'}
+    T_MULT = dict(params={'ir': 'Obj'}, optional=('scope_tree', 'ctx'), returns='MI', ghost={'mus': 'Seq[int]'}, state=['i'], ensures=['gM(mus[i], result.own)'], raises={'QueryError': {}})
+    T_CARD = dict(params={'ir': 'Obj'}, optional=('scope_tree', 'ctx'), returns='Card', ghost={'ncs': 'Seq[int]'}, state=['i'], ensures=['known(result)', 'in_gamma(ncs[i], result)'], raises={'QueryError': {}})
+    RULE = ('implies(%s[k].own != Mult.DUPLICATE, gM(mus[k], %s[k].own) and forall(0, len(cards), lambda j: implies(j != k, bounded(cards[j]))))')
+    w.contract(MULT, '__infer_tuple', params={'ir': 'IrTuple', 'scope_tree': 'Obj', 'ctx': 'Obj'}, ghost=TG, returns='CMI',
+        requires=['len(ncs) == len(ir.elements) and len(mus) == len(ir.elements)', 'forall(0, len(mus), lambda k: mus[k] >= 0 and ncs[k] >= 0)'],
+        ensures=['len(result.elements) == len(ir.elements)', 'result.own != Mult.UNKNOWN',
+                 # an element keeps a non-DUPLICATE multiplicity only if it is its own and every other element is single (cards = the inferred cardinalities, sound for the sizes ncs)
+                 'forall(0, len(ir.elements), lambda k: ' + RULE % ('result.elements', 'result.elements') + ')',
+                 'forall(0, len(ir.elements), lambda k: known(cards[k]) and in_gamma(ncs[k], cards[k]))',
+                 # the tuple set itself: no tuple occurs more often than ... (its own multiplicity is the maximum of its elements')
+                 'forall(0, len(ir.elements), lambda k: els[k].own <= result.own)'],
+        raises={'QueryError': {}},
+        loops={'comp#0': dict(elem_type='MI', acc='acc', index='i', seq='its', invariant=['len(acc) == i', 'forall(0, i, lambda k: gM(mus[k], acc[k].own))']),
+               'comp#1': dict(elem_type='Card', acc='acc', index='i', seq='its', invariant=['len(acc) == i', 'forall(0, i, lambda k: known(acc[k]) and in_gamma(ncs[k], acc[k]))']),
+               'sum#0': dict(acc='acc', index='i', acc_type='int', invariant=['acc >= 0',
+                          'implies(acc == 0, forall(0, i, lambda k: bounded(cards[k])))',
+                          'implies(acc <= 1, forall(0, i, lambda j: forall(0, i, lambda k: implies(j != k, bounded(cards[j]) or bounded(cards[k])))))']),
+               0: dict(fingerprint='for (el, card) in zip(els, cards)', index='i', invariant=[
+                          'len(new_els) == i', 'forall(0, i, lambda k: ' + RULE % ('new_els', 'new_els') + ')'])},
+        hints={'var_types': {'new_els': 'Seq[MI]'}, 'ext_funcs': {'infer_multiplicity': T_MULT, 'cardinality.infer_cardinality': T_CARD}})
+
 def build():
     w = World('C06')
     w.enum('Card', QLT, 'Cardinality')
@@ -284,3 +313,18 @@ def build():
                         '(result == OutCard.MANY) == (card == Card.MANY)', '(result == OutCard.AT_LEAST_ONE) == (card == Card.AT_LEAST_ONE)',
                         'result != OutCard.NO_RESULT'])
     return w
+
+def scenarios(tier, seed, repo_root, outdir):
+    """bounded stand-in: real rule functions on concrete multisets vs the set semantics of the construct (see scenario.py)"""
+    import os, json, subprocess
+    here = os.path.dirname(os.path.abspath(__file__)); root = os.path.dirname(os.path.dirname(here))
+    out = os.path.join(outdir, 'scenario_out.json')
+    if os.path.exists(out): os.unlink(out)
+    nmax = 3 if tier == 'quick' else 4
+    env = dict(os.environ); env['PYTHONPATH'] = '%s:%s' % (os.path.join(root, 'stubs'), repo_root); env['VERIF_REPO'] = repo_root
+    p = subprocess.run(['/venv/bin/python', os.path.join(here, 'scenario.py'), str(seed), str(nmax), out], capture_output=True, text=True, env=env, cwd=repo_root, timeout=3000)
+    if not os.path.exists(out): raise RuntimeError('scenario runner failed: ' + (p.stderr or p.stdout)[-2000:])
+    r = json.load(open(out))
+    return dict(evaluations=r['cases'], failure=r['failure'],
+                label='tuple constructor rule on all tuples of <= %d elements over 5 concrete multisets x exact / loose cardinalities (bounded)' % nmax,
+                clause='per-element and own multiplicity of a tuple set bound the duplicates of its projections / of the tuples')
